@@ -20,7 +20,7 @@ fn histex_check(prop: &str, tier: &str, plans: &[HxPlan], owned: &[&str], note: 
 fn histex_part(run: &mut Run, tier: &str, plans: &[HxPlan], owned: &[&str], note: &str) {
     let (mut states, mut trans) = (0u64, 0u64);
     let mut fams = vec![];
-    let cap_total: f64 = std::env::var("VERIF_CAP_SECS").ok().and_then(|s| s.parse().ok()).unwrap_or(if tier == "quick" && crate::common::is_sub() { 15.0 } else if tier == "quick" { 45.0 } else if crate::common::is_sub() { 300.0 } else { 600.0 });
+    let cap_total: f64 = std::env::var("VERIF_CAP_SECS").ok().and_then(|s| s.parse().ok()).unwrap_or(if tier == "quick" && crate::common::is_sub() { 8.0 } else if tier == "quick" { 45.0 } else if crate::common::is_sub() { 300.0 } else { 600.0 });
     let t_start = std::time::Instant::now();
     let mut exhaustive = true;
     let mut decoder_disagreements = 0u64;
@@ -30,7 +30,7 @@ fn histex_part(run: &mut Run, tier: &str, plans: &[HxPlan], owned: &[&str], note
         let fam = family(p.family);
         let mut depth = if tier == "quick" { p.quick_depth } else { p.thorough_depth };
         if tier == "quick" && crate::common::is_sub() {
-            depth = depth.min(2); // reduced run on the second configuration
+            depth = depth.min(3); // reduced run on the second configuration (15 s cap: depth 2 always completes)
         }
         let st = histex::explore(run, &fam, depth, per, owned);
         states += st.states;
@@ -43,7 +43,8 @@ fn histex_part(run: &mut Run, tier: &str, plans: &[HxPlan], owned: &[&str], note
     }
     // the same oracle along one long history on a large structure (131 attributes, ~400 rights,
     // two-byte identifiers): thresholds that the small worlds of the BFS cannot reach
-    let (big_steps, _) = histex::run_path(run, "big", &histex::big_path(), owned);
+    // (not in the reduced quick run on the second configuration: ids and counts do not depend on it)
+    let (big_steps, _) = if tier == "quick" && crate::common::is_sub() { (0, Default::default()) } else { histex::run_path(run, "big", &histex::big_path(), owned) };
     states += big_steps;
     trans += big_steps;
     run.set("large_structure_path_steps", json!(big_steps));
@@ -69,6 +70,15 @@ pub fn dispatch(args: &[String]) -> i32 {
         Some("run") => {
             let prop = args.get(1).map(String::as_str).unwrap_or_else(|| machinery("usage: vh run <ID> <tier>"));
             let tier = args.get(2).map(String::as_str).unwrap_or("quick");
+            // backstop: a library call that never returns (a self-deadlock in sequential use) must
+            // end the check, not hang it; every engine has its own, much shorter, wall caps
+            let limit: u64 = std::env::var("VERIF_HARD_LIMIT_SECS").ok().and_then(|s| s.parse().ok()).unwrap_or(if tier == "quick" { 600 } else { 5 * 3_600 });
+            let (p2, t2) = (prop.to_string(), tier.to_string());
+            std::thread::spawn(move || {
+                std::thread::sleep(std::time::Duration::from_secs(limit));
+                println!("MACHINERY-ERROR: {p2} {t2} did not finish within {limit} s (a call that never returns, or an overloaded machine); no verdict");
+                std::process::exit(2);
+            });
             run_check(prop, tier)
         }
         Some("replay") => {
@@ -77,6 +87,13 @@ pub fn dispatch(args: &[String]) -> i32 {
         }
         Some("worker") => crate::fparse::worker_main(),
         Some("sched-scenario") => crate::sched::scenario_main(args[1].parse().unwrap_or(0), &args[2], args[3].parse().unwrap_or(40.0)),
+        Some("parse") => {
+            // ad-hoc: vh parse <policy>...
+            for a in &args[1..] {
+                println!("{a:?} -> {:?}", cosmian_cover_crypt::AccessPolicy::parse(a).map(|p| (format!("{p:?}"), p.to_dnf())));
+            }
+            0
+        }
         Some("sched-soak") => crate::sched::soak_main(args[1].parse().unwrap_or(100_000), args[2].parse().unwrap_or(4)),
         Some("genfix") => crate::fixtures::generate(),
         Some("checkfix") => {
@@ -137,7 +154,8 @@ pub fn run_check(prop: &str, tier: &str) -> i32 {
             let mut run = Run::new(prop, tier, "model_checking");
             histex_part(&mut run, tier, &[hp("rot", 4, 5), hp("disrot", 4, 5), hp("rotsnap", 4, 5)], &["C04."], HX);
             // many revisions of the same rights: a single long history, every step checked
-            let n = if tier == "quick" { 10 } else { 24 };
+            let reduced = tier == "quick" && crate::common::is_sub();
+            let n = if reduced { 3 } else if tier == "quick" { 10 } else { 24 };
             let mut path = vec![];
             for i in 0..n {
                 path.push(crate::world::Op::Rekey(if i % 3 == 2 { "*".into() } else { "A::x".into() }));
@@ -152,6 +170,19 @@ pub fn run_check(prop: &str, tier: &str) -> i32 {
             path.push(crate::world::Op::Refresh { k: 0, keep: true });
             path.push(crate::world::Op::Refresh { k: 0, keep: false });
             let (steps, _) = histex::run_path(&mut run, "rot", &path, &["C04."]);
+            // many more revisions, never pruned (sparse: every 15th step and the last three are
+            // checked in full, the others by the lock-step comparison of the decoded keys): an old
+            // secret must survive any number of later rekeys
+            let m = if reduced { 30 } else if tier == "quick" { 48 } else { 140 };
+            let mut sparse = vec![];
+            for i in 0..m {
+                sparse.push(crate::world::Op::Rekey(if i % 2 == 0 { "A::x && H::hi".into() } else { "H::hi".into() }));
+                sparse.push(crate::world::Op::Refresh { k: 0, keep: true });
+            }
+            sparse.push(crate::world::Op::Refresh { k: 1, keep: true });
+            let sparse_steps = histex::run_path_sparse(&mut run, "rot", &sparse, &["C04."], if tier == "quick" { 60 } else { 40 }, if reduced { 1 } else { 2 });
+            run.set("sparse_long_path_steps", json!(sparse_steps));
+            run.set("sparse_long_path_revisions_of_a_hybridized_right", json!(m + 1));
             run.set("long_path_steps", json!(steps));
             run.set("long_path_revisions_of_one_right", json!(n + 1));
             run.finish()
@@ -166,6 +197,7 @@ pub fn run_check(prop: &str, tier: &str) -> i32 {
             // the contract of keygen / encaps / decaps over the structure x policy matrix (same
             // attribute names in several dimensions, many targets, odd names)
             crate::polmat::part_stride(&mut run, tier == "thorough", &["C09."], 3);
+            crate::ftamper::hollow_contract(&mut run);
             run.finish()
         }
         "C10" => histex_check(prop, tier, &[hp("failrot", 3, 5), hp("args", 3, 4), hp("trace", 3, 5)], &["C10."], HX),
@@ -173,6 +205,7 @@ pub fn run_check(prop: &str, tier: &str) -> i32 {
             let mut run = Run::new(prop, tier, "model_checking");
             histex_part(&mut run, tier, &[hp("rot", 3, 4), hp("edit", 3, 4), hp("rt", 3, 4), hp("hyb", 4, 5)], &["C11."], HX);
             crate::polmat::part(&mut run, tier == "thorough", &["C11."]);
+            crate::ftamper::hybrid_binding(&mut run);
             run.finish()
         }
         "C12" => {
@@ -185,7 +218,7 @@ pub fn run_check(prop: &str, tier: &str) -> i32 {
         }
         "C13" => {
             let mut run = Run::new(prop, tier, "model_checking");
-            histex_part(&mut run, tier, &[hp("rt", 4, 5), hp("edit", 3, 4), hp("trace", 3, 4)], &["C13."], HX);
+            histex_part(&mut run, tier, &[hp("hyb", 4, 5), hp("trace", 3, 4), hp("edit", 3, 4), hp("rt", 4, 5)], &["C13."], HX);
             crate::fixtures::report(&mut run);
             crate::fixtures::big_roundtrip(&mut run);
             run.finish()
